@@ -239,6 +239,8 @@ class Printer:
     def key(self, k):
         if k[0] == "PKStr":
             return js_str(k[1])
+        if k[0] == "PKComputed":
+            return "[" + self.e(k[1]) + "]"
         raise ValueError(k)
 
     def pat(self, p):
@@ -498,6 +500,27 @@ class Gen:
         inner = seq(lit, ident("undeclared1")) if op == "comma" else logical(op, lit, ident("undeclared1"))
         return unary("UTypeof", paren(inner))
 
+    def named_evaluation(self):
+        """lit && / || / ?? <anonymous function> where an enclosing computed key / assignment / declaration would name a
+        bare function (the folder unwraps the logical expression: fold-logical-function-name)"""
+        r = self.r
+        self.feat.add("logical-anon-function-in-named-position")
+        op, lit = r.choice([("LOr", ("EBool", False)), ("LAnd", ("EBool", True)), ("LCoalesce", ("ENull",)), ("LOr", num(0)), ("LAnd", num(1))])
+        fn = paren(("EFunc", self.add_func(func(kind=r.choice(["FNormal", "FArrow"]), body=[("SReturn", num(1))]))))
+        if fn[1][0] == "EFunc" and self.funcs[fn[1][1]]["f_kind"] == "FNormal" and r.random() < 0.5:
+            fn = fn[1]
+        val = logical(op, lit, fn)
+        k = r.randrange(3)
+        if k == 0:
+            self.feat.add("named-position-computed-key")
+            obj = paren(("EObject", [("PInit", ("PKComputed", s("ck")), val)]))
+            return [pr(member(("EIndex", obj, s("ck"), False), "name"))]
+        if k == 1:
+            self.feat.add("named-position-assignment")
+            return [("SExpr", assign("nf", val)), pr(member(ident("nf"), "name"))]
+        self.feat.add("named-position-var-init")
+        return [("SDecl", "KVar", [(("PId", u("nv")), val)]), pr(member(ident("nv"), "name"))]
+
     def side_effect(self, depth):
         r = self.r
         c = r.randrange(3)
@@ -691,8 +714,10 @@ class Gen:
                 body.append(pr(self.expr(r.randrange(1, 4), lits_only=r.random() < 0.5)))
             elif c < 0.36:
                 body.append(pr(self.strength(2)))
-            elif c < 0.40:
+            elif c < 0.39:
                 body.append(("STry", [pr(self.reference_context())], (("PId", u("e")), [pr(s("threw"))]), None))
+            elif c < 0.42:
+                body.extend(self.named_evaluation())
             elif c < 0.50:
                 self.feat.add("value-stmt")
                 body.append(("SExpr", self.expr(r.randrange(1, 3), lits_only=r.random() < 0.5)))
@@ -759,6 +784,9 @@ EDGE_TEXTS = [
     "(function () { if (true) { print('in-expr-fn'); } return 1 + 1; })();", "var o = {m() { if (false) { print('dead'); } return 2 * 3; }}; print(o.m());",
     "function f() { if (false) { var v = 1; } return typeof v; } print(f());", "function g() { 1; if (true) {} } print(g());",
     "var r = eval('1; if (true) {}'); print(r);", "print(void null);",
+    'var k = "key"; print(({[k]: false || function(){}})[k].name); print(({[k]: (true && (() => 1))})[k].name); print(({[k]: null ?? class {}})[k].name);',
+    'var k = "key"; class A { static [k] = true && function(){} } print(A[k].name);',
+    'var x; x = 0 || function(){}; print(x.name); function d(p = 1 && function(){}) { return p.name } print(d()); var o = {kk: true && function(){}}; print(o.kk.name);',
     # malformed: the parser must reject these on both paths
     "1 +", "if (true", "var = 3;", "print(1 ** -2 ** );", "-1 ** 2;", "1 ?? 2 || 3;", "let let = 1;", "break;", "function (){}", "x = = 1;",
 ]
@@ -818,6 +846,10 @@ def witness_programs():
     fs = [func(kind="FNormal", body=[("SIf", T, blk(pr(s("in-expr-fn"))), None), ("SReturn", binary("BAdd", num(1), num(1)))]),
           func(name="f", kind="FNormal", body=[("SIf", F, blk(pr(s("dead"))), None), ("SReturn", binary("BMul", num(2), num(3)))])]
     out.append(("walker-vs-visitor", prog([pr(call(paren(("EFunc", 0)))), ("SFunDecl", u("f"), 1), pr(call(ident("f")))], funcs=fs)))
+    fs = [func(kind="FNormal", body=[])]
+    objk = paren(("EObject", [("PInit", ("PKComputed", ident("k")), logical("LOr", F, ("EFunc", 0)))]))
+    out.append(("fold-logical-function-name", prog([("SDecl", "KVar", [(("PId", u("k")), s("key"))]),
+                                                     pr(member(("EIndex", objk, ident("k"), False), "name"))], funcs=fs)))
     out.append(("bigint-mix-throws", prog([("STry", [pr(binary("BAdd", ("EBigInt", 1), num(1)))], (("PId", u("e")), [pr(s("T"))]), None),
                                            ("STry", [pr(unary("UPos", ("EBigInt", 1)))], (("PId", u("e")), [pr(s("T"))]), None),
                                            ("STry", [pr(binary("BDiv", ("EBigInt", 1), ("EBigInt", 0)))], (("PId", u("e")), [pr(s("R"))]), None)])))
